@@ -2,7 +2,7 @@
    Only statements closed by [exact]; the proofs live in Asn1/IntProofs.v and Asn1/TlvProofs.v. *)
 From Coq Require Import ZArith NArith List.
 From Coq.Strings Require Import Byte.
-From SV Require Import Base.Bytes Base.Py Gen.Generated Asn1.Model Asn1.Spec Asn1.IntProofs Asn1.TlvProofs.
+From SV Require Import Gen.Sharing Base.Bytes Base.Py Gen.Generated Asn1.Model Asn1.Spec Asn1.IntProofs Asn1.TlvProofs.
 Import ListNotations.
 
 (* reader: ANY non-empty content (minimal or padded) denotes its two's-complement value *)
@@ -58,6 +58,13 @@ Proof. repeat split; vm_compute; try discriminate; auto. Qed.
 Example C07_carry_witness : int_of_content [xff; x00; x00] = Ok (-65536)%Z /\ int_content (-65536)%Z = [xff; x00; x00].
 Proof. split; reflexivity. Qed.
 
+(* The theorems above are about functions and values; that asn1.py keeps no state
+   between calls and shares none between objects is read off the source by tools/audit.py on every run
+   (Gen/Sharing.v): no memoisation, no module- or class-level container that is written, no mutable default, no
+   attribute written behind a dataclass, no parameter stored without a copy. *)
+Theorem C07_audit_no_state_between_calls : (hidden_state_asn1 = [])%list.
+Proof. exact eq_refl. Qed.
+
 Print Assumptions C07_reader_is_twos_complement.
 Print Assumptions C07_reader_empty_is_value_error.
 Print Assumptions C07_writer_minimal_twos_complement.
@@ -67,3 +74,4 @@ Print Assumptions C07_tlv_roundtrip_no_overconsumption.
 Print Assumptions C07_reader_integer_roundtrip.
 Print Assumptions C07_reader_boolean_roundtrip.
 Print Assumptions C07_reader_sequence_roundtrip.
+Print Assumptions C07_audit_no_state_between_calls.
